@@ -95,7 +95,8 @@ def put_disposes_once(ctx, prop):
             why = ''
             if len(real) == 0 and kind == 'router':
                 cs = p.cond_str()
-                ok = NO_ROUTE.get(c.name, '\0') in cs and ('not self.%s' % NO_ROUTE[c.name]) in cs
+                ok = (NO_ROUTE.get(c.name, '\0') in cs and ('not self.%s' % NO_ROUTE[c.name]) in cs) or \
+                    (c.name == 'FIBDemux' and 'not self.outs[' in cs)     # the named port has nothing attached
                 why = 'documented no-route'
             ctx.ob(rule, ok)
             if ok:
